@@ -68,23 +68,29 @@ func (m *mrtWriter) dumpTable() []*mrt.MRTMessage {
 	peermap := make(map[netip.Addr]dumpPeer)
 
 	idx := func(p *table.Path) uint16 {
-		if p, ok := peermap[p.GetSource().Address]; ok {
+		addr := p.GetSource().Address
+		if p.IsLocal() {
+			// locally generated routes have no source address
+			addr = netip.IPv4Unspecified()
+		}
+		if p, ok := peermap[addr]; ok {
 			return p.index
 		}
 		newIdx := uint16(len(peermap))
-		if p.GetSource().Address == netip.IPv4Unspecified() {
+		if p.IsLocal() {
 			// Adding dummy Peer record for locally generated routes
-			peermap[netip.IPv4Unspecified()] = dumpPeer{
+			peermap[addr] = dumpPeer{
 				index: newIdx,
 				addr:  netip.IPv4Unspecified(),
 				id:    netip.IPv4Unspecified(),
 				as:    0,
 			}
 		} else {
-			peermap[p.GetSource().Address] = dumpPeer{
+			peermap[addr] = dumpPeer{
 				index: newIdx,
-				addr:  p.GetSource().Address,
+				addr:  addr,
 				id:    p.GetSource().ID,
+				as:    p.GetSource().AS,
 			}
 		}
 		return newIdx
